@@ -28,6 +28,8 @@ class HarnessError(Exception):
 
 def setup_paths():
     deps = os.path.join(VERIF, '.deps')
+    if not os.path.isdir(deps) and os.path.isdir('/verif/.deps'):
+        deps = '/verif/.deps'      # background snapshots (vp run) do not carry untracked files
     for p in (deps, REPO_SRC, VERIF):
         if p in sys.path:
             sys.path.remove(p)
@@ -132,7 +134,7 @@ class Acc(object):
         for k, v in other.counters.items():
             self.counters[k] = self.counters.get(k, 0) + v
         for k, v in other.extra.items():
-            if isinstance(v, (int, float)):
+            if isinstance(v, (int, float, tuple)):
                 self.maxi(k, v)
             else:
                 self.extra[k] = v
